@@ -12,10 +12,10 @@
       sfmodel adpcmenc script      scripts:
 
       == <name>
-      codec ima-wav|ima-aiff|ms ch=<n> sr=<n> [normF=0|1 normD=0|1 variant=sse2|lrint] [seekfix=0|1]
-      w <ty> <i|f> <count> <hex items>      -> ret=<count> err=0
+      codec ima-wav|ima-aiff|ms ch=<n> sr=<n> [w64=0|1] [normF=0|1 normD=0|1 variant=sse2|lrint] [seekfix=0|1]
+      w <ty> <i|f> <count> <hex items>      -> ret=<count> err=0      (count in items for `i`, in frames for `f`)
       seek <offset> <whence>                -> ret=<n> err=0|E          (whence 0, 1, 2 as the caller passes them)
-      close                                 -> data=<hex> blocks=<encode calls> hdrframes=<sf.frames handed to the header writer>
+      close                                 -> data=<hex> blocks=<encode calls> hdrframes=<sf.frames handed to the header writer> hdrfield=<fact chunk / numSampleFrames>
       reopen                                -> frames=<n> stream=<every decoded short of the data region just closed, 4-digit hex>
 
   `seek`: SEEK_CUR 0 returns the write position; every other target is resolved to an absolute frame (negative: refused before
@@ -42,6 +42,7 @@ structure DS where
   maxf  : Nat := 0                 -- psf->sf.frames while writing
   blkc  : Nat := 0                 -- pima->blockcount / pms->blockcount
   fix   : Bool := true
+  w64   : Bool := false
 
 def outLine (xs : List Int) : String := String.join (xs.map fun x => hexFixed 4 (wrapU 16 x))
 
@@ -61,15 +62,16 @@ def runLine (ds : DS) (line : String) : DS × Option String :=
     | none => (ds, some "bad-op")
     | some kind =>
       let g := geoOf kind (kvNat rest "sr" 8000) (kvNat rest "ch" 1)
-      ({ g := g, conv := convOf rest, ws := initW g, fix := kvBool rest "seekfix" true }, some s!"open={if g.initOk then "ok" else "fail"}")
-  | ["w", tyS, _, nS, hex] =>
+      ({ g := g, conv := convOf rest, ws := initW g, fix := kvBool rest "seekfix" true, w64 := kvBool rest "w64" false }, some s!"open={if g.initOk then "ok" else "fail"}")
+  | ["w", tyS, unit, nS, hex] =>
     match tyOf tyS with
     | none => (ds, some "bad-op")
     | some ty =>
       let n := nS.toNat!
-      let vs := (parseItems ty hex).take n
+      let items := if unit == "f" then n * ds.g.ch else n
+      let vs := (parseItems ty hex).take items
       let ds1 := harvest ds (writeCall ds.g ds.conv ty ds.ws vs)
-      let wcur := ds.wcur + n / ds.g.ch
+      let wcur := ds.wcur + items / ds.g.ch
       ({ ds1 with wcur := wcur, maxf := max ds.maxf wcur }, some s!"ret={n} err=0")
   | ["w", _, _, _] => (ds, some "ret=0 err=0")
   | ["seek", offS, whS] =>
@@ -89,7 +91,8 @@ def runLine (ds : DS) (line : String) : DS × Option String :=
   | ["close"] =>
     let ds1 := harvest ds (closeSt ds.g ds.ws)
     ({ ds1 with ws := initW ds.g },
-      some s!"data={hexBytes ds1.file.flatten} blocks={ds1.blkc} hdrframes={headerFrames ds.g ds1.blkc ds.maxf}")
+      let hf := headerFrames ds.g ds1.blkc ds.maxf (openFrames ds.w64)
+      some s!"data={hexBytes ds1.file.flatten} blocks={ds1.blkc} hdrframes={hf} hdrfield={headerField ds.g hf}")
   | ["reopen"] =>
     let data := ds.file.flatten
     let r := readerOf ds.g data
